@@ -264,7 +264,7 @@ func c06Gen(t *rapid.T) advScenario {
 	if rapid.IntRange(0, 3).Draw(t, "unicastfails") == 0 {
 		// some transmission to a host fails while the all-nodes group can still be reached (the host has left):
 		// whatever the advertiser then does - it re-initialises - the multicast RAs of each initialisation keep their distance
-		sc.Lat = []latRule{{Dst: "unicast", N: rapid.IntRange(0, 4).Draw(t, "failnth"), Err: rapid.SampledFrom([]string{"syscall", "syscall:ENOBUFS", "syscall:EINTR"}).Draw(t, "failkind"),
+		sc.Lat = []latRule{{Dst: rapid.SampledFrom([]string{"unicast", "unicast", "multicast", "any"}).Draw(t, "faildst"), N: rapid.IntRange(0, 4).Draw(t, "failnth"), Err: rapid.SampledFrom([]string{"syscall", "syscall:ENOBUFS", "syscall:EINTR"}).Draw(t, "failkind"),
 			From: rapid.IntRange(0, 3).Draw(t, "failall") == 0}}
 	}
 	return sc
